@@ -113,7 +113,14 @@ Reset ==
   /\ msgLen' = 0 /\ perms' = 0 /\ squeezed' = 0
   /\ res' = [op |-> "Reset", in |-> << >>, out |-> << >>]
 
-Next == (\E k \in WSizes : Write(k)) \/ (\E k \in RSizes : Read(k)) \/ Sum \/ Reset
+(* The caller owns what Sum and Read returned (and what it passed to Write): overwriting those   *)
+(* buffers is no operation of the sponge -- its state and every later output are unaffected.    *)
+Clobber ==
+  /\ res.op \in {"Sum", "Read", "Write"}
+  /\ res' = [res EXCEPT !.op = "Clobber"]
+  /\ UNCHANGED << phase, n, blocks, cur, msgLen, perms, squeezed >>
+
+Next == (\E k \in WSizes : Write(k)) \/ (\E k \in RSizes : Read(k)) \/ Sum \/ Reset \/ Clobber
 Spec == Init /\ [][Next]_vars
 
 ---------------------------------------------------------------------------
